@@ -423,7 +423,7 @@ class SymReal:
                 raise ZeroDivisionError("float division by zero")
             c = o.const_value()
             return self * SymReal(_rv(1 / c))
-        if _ctx().branch(o.n == 0):
+        if not _known_pos(o.n) and _ctx().branch(o.n == 0):
             raise ZeroDivisionError("float division by zero")
         n = _rmul(self.n, o.d) if o.d is not None else self.n
         d = _rmul(self.d, o.n) if self.d is not None else o.n
@@ -490,6 +490,9 @@ class SymReal:
         a, b = self, o
         if a.d is None and b.d is None:
             l, r = a.n, b.n
+        elif _known_pos(a.d) and _known_pos(b.d):
+            l = a.n * b.d if b.d is not None else a.n
+            r = b.n * a.d if a.d is not None else b.n
         elif a.d is not None and b.d is not None and a.d.eq(b.d):
             l, r = a.n * a.d, b.n * a.d  # times d^2 > 0
         elif b.d is None:
@@ -515,6 +518,8 @@ class SymReal:
         return z3.simplify(l == r)
 
     def __eq__(self, o):
+        if isinstance(o, (int, float)) and o == 0 and _known_pos(self.n):
+            return False
         e = self._eqf(o)
         if e is None:
             return False
@@ -547,6 +552,23 @@ class SymReal:
 
 def _s(e):
     return e
+
+
+def _known_pos(e, depth=0):
+    """structurally positive: positive numeral, a variable declared positive, or a sum/product of such"""
+    if e is None:
+        return True
+    q = _rq(e)
+    if q is not None:
+        return q > 0
+    c = Ctx.current
+    if c is None or depth > 40:
+        return False
+    if z3.is_const(e):
+        return e.get_id() in c.posvars
+    if z3.is_app(e) and e.decl().kind() in (z3.Z3_OP_MUL, z3.Z3_OP_ADD):
+        return all(_known_pos(ch, depth + 1) for ch in e.children())
+    return False
 
 
 def _rq(e):
@@ -731,6 +753,7 @@ class Ctx:
         self.children = []
         self.values = values or {}
         self.vars = {}  # name -> z3 const (sym mode)
+        self.posvars = set()  # ids of z3 reals declared strictly positive
         self.draw_budget = draw_budget
         self.draws = 0
         self.rng_log = []
@@ -789,6 +812,8 @@ class Ctx:
             return float(Fraction(x)) if not isinstance(x, float) else x
         v = z3.Real(self._name(name))
         self.vars[name] = v
+        if lo is not None and (lo > 0 or (lo == 0 and lo_strict)):
+            self.posvars.add(v.get_id())
         if lo is not None:
             self.assume_raw(v > _rv(lo) if lo_strict else v >= _rv(lo))
         if hi is not None:
